@@ -1138,7 +1138,6 @@ def run(scn, ch, log=False):
             declared = hd.get("content-length", [""])[0]
             nbody = len(sg["body"])
             if "content-length" in hd and "transfer-encoding" not in hd and rq["compress"] is None and declared.isdigit() \
-                    and rq["method"].upper() != "HEAD" \
                     and (nbody > int(declared) or (done and not any_fault_early() and last_seg[sg["ex"]] is sg and nbody != int(declared))):
                 poisoned(sg["ex"])
                 violate("request_framing", f"content_length_vs_bytes_written:{ck}",
@@ -1146,8 +1145,9 @@ def run(scn, ch, log=False):
                         f"Content-Length {hd['content-length']!r} without Transfer-Encoding but the client wrote {nbody} body "
                         f"bytes: {_short(bytes(sg['body'][:60]))}")
             if rq["method"].upper() == "HEAD" and (hd.get("content-length", ["0"]) != ["0"] or "transfer-encoding" in hd):
+                # a HEAD request that carries body framing: the server must consume the body like any other
+                # (C02-F5 / C01-F1, repaired in the repository; the connection is no longer treated as poisoned)
                 head_body_dropped.add(sg["ex"])
-                poisoned(sg["ex"])
             if "content-length" not in hd and "transfer-encoding" not in hd and sg["body"]:
                 poisoned(sg["ex"])
                 violate("request_framing", f"body_bytes_without_framing_header:{ck}",
@@ -1416,7 +1416,7 @@ def run(scn, ch, log=False):
 
         for i_ in sorted(head_body_dropped):
             recs_ = [r for r in seen if r["ex"] == i_ and r["done"]]
-            if any(not r["body"] for r in recs_) and i_ <= poison["from"]:
+            if exchanges[i_]["req"]["body"].get("size", 0) > 0 and any(not r["body"] for r in recs_) and i_ <= poison["from"]:
                 rq_ = exchanges[i_]["req"]
                 violate("request_roundtrip", "head_request_body_dropped",
                         f"exchange {i_}: HEAD request sent with a {rq_['body']['kind']} body (framed by "
